@@ -68,7 +68,7 @@ class Ctx:
     # -- functions under contract ---------------------------------------------------------------------
     def fn(self, rel, path, key, props, ret=None, spec='', body_prefix='', rewrites=(), sig_rewrites=(),
            prose='body verifies: no panic (unwrap/expect/index/overflow) and every callee precondition holds',
-           pub=True, inserts=(), probe=True, attrs='', transforms=(), optional=False):
+           pub=True, inserts=(), probe=True, attrs='', transforms=(), optional=False, param_names=()):
         try:
             e = extract(self.repo, rel, path, key=key)
         except AnchorLost as err:
@@ -83,6 +83,7 @@ class Ctx:
             e.sig_orig = norm(e.fn_parts()[0])
         except AnchorLost:
             e.sig_orig = None
+        e.normalize_params(param_names)
         e.drop_log_macros()
         e.replace_macro('anyhow', 'Error::msg()')
         e.replace_macro('bail', 'return Err(Error::msg())')
@@ -221,7 +222,10 @@ class Ctx:
                 continue
             path = ('impl %s :: %s %s' % (impl_hdr, kw, name)) if impl_hdr else ('%s %s' % (kw, name))
             e = extract(self.repo, rel, path, key='helper:' + (re.sub(r'\s+', '', impl_hdr) + '::' if impl_hdr else '') + name)
-            e.strip_docs(); e.inner_attrs(); e.drop_log_macros()
+            e.strip_docs(); e.inner_attrs()
+            if kw == 'fn':
+                e.normalize_params()
+            e.drop_log_macros()
             e.replace_macro('anyhow', 'Error::msg()'); e.replace_macro('bail', 'return Err(Error::msg())')
             for rw in self.helper_rewrites:
                 e.rewrite(**dict(rw, optional=True))
